@@ -155,6 +155,24 @@ impl Shadow {
     }
 }
 
+/// `JournaledState::new(spec, {})` with `journal` and `logs` moved into buffers of capacity 6 that come from a `vec![..]`
+/// literal.  Same VALUE as `new` gives (one empty level, no logs); only the capacities differ.  Why: a `vec![..]` literal
+/// is a typed allocation whose contents symbolic execution tracks field by field, while a buffer grown by `Vec::push` is
+/// an untyped byte array: a level header (`Vec { cap, ptr, len }`) read back from it is not a constant, the first `push`
+/// on that level then allocates a buffer of SYMBOLIC size, and any read of an entry costs > 10 GB (measured: 4 lines,
+/// `checkpoint(); push; push; read` -- no verdict in 200 s; with this constructor 14 s).
+fn new_journaled_state(spec: SpecId) -> JournaledState {
+    let mut js = JournaledState::new(spec, HashSet::default());
+    assert!(js.journal.len() == 1 && js.journal[0].is_empty() && js.logs.is_empty() && js.depth == 0);
+    let mut j: Vec<Vec<JournalEntry>> = vec![vec![], vec![], vec![], vec![], vec![], vec![]];
+    j.truncate(1);
+    core::mem::forget(core::mem::replace(&mut js.journal, j));
+    let mut lg: Vec<Log> = vec![log_of(0), log_of(0), log_of(0), log_of(0), log_of(0), log_of(0)];
+    unsafe { lg.set_len(0) }; // the six placeholder logs own nothing (empty topics, static empty data)
+    core::mem::forget(core::mem::replace(&mut js.logs, lg));
+    js
+}
+
 // ------------------------------------------------------------------------------------------------ (1) the driver
 /// `checkpoint_revert(cp)` -- CALL PROTOCOL and bookkeeping, for every fork, on ONE CONCRETE SHAPE per harness (a symbolic
 /// shape -- symbolic Vec lengths -- went past 12 GB): `pre` = entries on each level open when `cp = checkpoint()` is
@@ -177,7 +195,7 @@ fn driver_case(pre: &[usize], logs0: usize, own: usize, logs1: usize, inner: &[(
             unreachable!()
         }
     };
-    let mut js = JournaledState::new(spec, HashSet::default());
+    let mut js = new_journaled_state(spec);
     let mut sh = Shadow::new();
     let w: u64 = kani::any();
 
@@ -275,92 +293,124 @@ macro_rules! driver_harness {
 }
 const NONE: [(usize, usize); 0] = [];
 // one level above the checkpoint
-driver_harness!(driver_1level, 6, [1], 1, 2, 1, NONE, false, 0);
+driver_harness!(driver_1level, 8, [1], 1, 2, 1, NONE, false, 0);
 // an outer frame is open; one committed inner frame; entries on cp's level before AND after the inner frame
-driver_harness!(driver_inner_commit, 6, [1, 1], 1, 1, 1, [(2, 1)], false, 1);
+driver_harness!(driver_inner_commit, 8, [1, 1], 1, 1, 1, [(2, 1)], false, 1);
 // two committed inner frames, cp's own level EMPTY, second inner frame empty but logging
-driver_harness!(driver_two_inner, 6, [0], 0, 0, 0, [(1, 0), (0, 1)], false, 0);
+driver_harness!(driver_two_inner, 8, [0], 0, 0, 0, [(1, 0), (0, 1)], false, 0);
 // reverting a level on which nothing happened
-driver_harness!(driver_empty_level, 6, [2], 2, 0, 0, NONE, false, 0);
+driver_harness!(driver_empty_level, 8, [2], 2, 0, 0, NONE, false, 0);
 // inner frames left open (depth is only decremented once)
-driver_harness!(driver_inner_open, 6, [1], 0, 1, 0, [(1, 1), (1, 0)], true, 0);
+driver_harness!(driver_inner_open, 8, [1], 0, 1, 0, [(1, 1), (1, 0)], true, 0);
 // three levels below the checkpoint stay intact
-driver_harness!(driver_deep_outer, 6, [1, 2, 0], 2, 1, 2, [(1, 0)], false, 2);
-static mut T_LEN: usize = 99;
-static mut T_ID: u8 = 0;
-static mut T_PTR: *const JournalEntry = core::ptr::null();
-static mut T_SAVED: *const JournalEntry = core::ptr::null();
-fn e1_rec(_state: &mut EvmState, _transient: &mut TransientStorage, entries: Vec<JournalEntry>, _sd: bool) {
-    unsafe { T_LEN = entries.len(); T_PTR = entries.as_ptr(); }
-    core::mem::forget(entries);
+driver_harness!(driver_deep_outer, 8, [1, 2, 0], 2, 1, 2, [(1, 0)], false, 2);
+
+// ------------------------------------------------------------------------------------------------ real state
+const A: Address = Address::new([0xA1; 20]);
+const B: Address = Address::new([0xB2; 20]);
+const K1: U256 = U256::from_limbs([1, 0, 0, 0]);
+const K2: U256 = U256::from_limbs([2, 0, 0, 0]);
+
+/// insert through the entry API (the API the real load_account uses); no drop glue of `acc` on the impossible Occupied path
+fn put(js: &mut JournaledState, a: Address, acc: Account) {
+    match js.state.entry(a) {
+        Entry::Vacant(v) => {
+            v.insert(acc);
+        }
+        Entry::Occupied(_) => {
+            core::mem::forget(acc);
+            unreachable!()
+        }
+    }
 }
-fn e2_rec(_state: &mut EvmState, _transient: &mut TransientStorage, entries: Vec<JournalEntry>, _sd: bool) {
-    unsafe { T_LEN = entries.len(); if entries.len() == 2 { T_ID = entry_tag(&*T_SAVED.add(1)).0; } }
-    core::mem::forget(entries);
+fn status_of(touched: bool, cold: bool) -> AccountStatus {
+    let mut s = AccountStatus::Loaded;
+    if touched {
+        s |= AccountStatus::Touched;
+    }
+    if cold {
+        s |= AccountStatus::Cold;
+    }
+    s
 }
+/// an account without code and without storage: symbolic balance (below 2^255) and nonce
+fn plain_account(touched: bool, cold: bool) -> Account {
+    let mut limbs: [u64; 4] = kani::any();
+    limbs[3] &= 0x7FFF_FFFF_FFFF_FFFF;
+    Account {
+        info: AccountInfo { balance: U256::from_limbs(limbs), nonce: kani::any(), code_hash: KECCAK_EMPTY, code: None },
+        storage: HashMap::default(),
+        status: status_of(touched, cold),
+    }
+}
+
+// ------------------------------------------------------------------------------------------------ (3) create_account_checkpoint
+/// C07 / C21: every exit of `create_account_checkpoint` pairs its `checkpoint()`: on `Err(CreateCollision)` (target nonce
+/// != 0 or `address_has_storage`) depth, |journal|, |logs|, both balances, both nonces and the flags are what they were;
+/// on `Ok(cp)` depth + 1, |journal| + 1, the value moved caller -> target, target nonce 1 (Cancun), Created + Touched, and
+/// the new level holds exactly [AccountCreated, AccountTouched (iff not yet touched), BalanceTransfer].
+/// Bound: two accounts at concrete addresses, no code, empty storage, balances < 2^255 and value <= caller balance
+/// (OverflowPayment excluded), fork Cancun; `journal_revert` is the recorder (the collision path reverts an EMPTY level).
 #[kani::proof]
-#[kani::unwind(4)]
+#[kani::unwind(6)]
 #[kani::stub(std::collections::hash_map::RandomState::new, fixed_random_state)]
-#[kani::stub(crate::journaled_state::JournaledState::journal_revert, e1_rec)]
-fn tmp_e13() {
-    let mut js = JournaledState::new(SpecId::CANCUN, HashSet::default());
-    let mut j = Vec::with_capacity(8);
-    j.push(Vec::new());
-    core::mem::forget(core::mem::replace(&mut js.journal, j));
-    let cp = js.checkpoint();
-    js.journal.last_mut().unwrap().push(entry(3, 0));
-    js.journal.last_mut().unwrap().push(entry(6, 0));
-    let saved = js.journal[1].as_ptr();
-    js.checkpoint_revert(cp);
-    assert!(unsafe { T_LEN } == 2 && unsafe { T_PTR } == saved);
-    assert!(entry_tag(unsafe { &*saved.add(1) }).0 == 6);
-    assert!(js.depth == 0 && js.journal.len() == 1);
-    kani::cover!(true);
-    core::mem::forget(js);
-}
-#[kani::proof]
-#[kani::unwind(4)]
-#[kani::stub(std::collections::hash_map::RandomState::new, fixed_random_state)]
-#[kani::stub(crate::journaled_state::JournaledState::journal_revert, e2_rec)]
-fn tmp_e2() {
-    let mut js = JournaledState::new(SpecId::CANCUN, HashSet::default());
-    let mut j = Vec::with_capacity(8);
-    j.push(Vec::new());
-    core::mem::forget(core::mem::replace(&mut js.journal, j));
-    let cp = js.checkpoint();
-    js.journal.last_mut().unwrap().push(entry(3, 0));
-    js.journal.last_mut().unwrap().push(entry(6, 0));
-    unsafe { T_SAVED = js.journal[1].as_ptr(); }
-    js.checkpoint_revert(cp);
-    assert!(unsafe { T_LEN } == 2 && unsafe { T_ID } == 6);
-    assert!(js.depth == 0 && js.journal.len() == 1);
-    kani::cover!(true);
-    core::mem::forget(js);
-}
-#[kani::proof]
-#[kani::unwind(4)]
-#[kani::stub(std::collections::hash_map::RandomState::new, fixed_random_state)]
-fn tmp_t3() {
-    let mut js = JournaledState::new(SpecId::CANCUN, HashSet::default());
-    let cp = js.checkpoint();
-    js.journal.last_mut().unwrap().push(entry(3, 0));
-    js.journal.last_mut().unwrap().push(entry(6, 0));
-    assert!(entry_tag(&js.journal[1][1]).0 == 6);
-    kani::cover!(true);
-    core::mem::forget(js);
-}
-#[kani::proof]
-#[kani::unwind(4)]
-#[kani::stub(std::collections::hash_map::RandomState::new, fixed_random_state)]
-#[kani::stub(crate::journaled_state::JournaledState::journal_revert, e1_rec)]
-fn tmp_t4() {
-    let mut js = JournaledState::new(SpecId::CANCUN, HashSet::default());
-    let cp = js.checkpoint();
-    js.journal.last_mut().unwrap().push(entry(3, 0));
-    js.journal.last_mut().unwrap().push(entry(6, 0));
-    assert!(entry_tag(&js.journal[1][1]).0 == 6);
-    js.checkpoint_revert(cp);
-    assert!(unsafe { T_LEN } == 2);
-    kani::cover!(true);
+#[kani::stub(crate::journaled_state::JournaledState::journal_revert, recording_journal_revert)]
+#[kani::stub(<bytes::Bytes as core::ops::Drop>::drop, bytes_drop_noop)]
+fn create_account_checkpoint_exits() {
+    let mut js = new_journaled_state(SpecId::CANCUN);
+    let touched0: bool = kani::any();
+    let caller = plain_account(true, false);
+    let target = plain_account(touched0, false);
+    let (cb0, cn0, tb0, tn0) = (caller.info.balance, caller.info.nonce, target.info.balance, target.info.nonce);
+    put(&mut js, A, caller);
+    put(&mut js, B, target);
+    let _outer = js.checkpoint();
+    js.log(log_of(9));
+    let (d0, j0, l0) = (js.depth, js.journal.len(), js.logs.len());
+    assert!(d0 == 1 && j0 == 2 && l0 == 1);
+
+    let has_storage: bool = kani::any();
+    let mut vl: [u64; 4] = kani::any();
+    vl[3] &= 0x7FFF_FFFF_FFFF_FFFF;
+    let value = U256::from_limbs(vl);
+    kani::assume(value <= cb0);
+
+    let r = js.create_account_checkpoint(A, B, has_storage, value, SpecId::CANCUN);
+
+    let collision = tn0 != 0 || has_storage;
+    kani::cover!(collision && r.is_err());
+    kani::cover!(!collision && r.is_ok() && !touched0);
+    match r {
+        Err(e) => {
+            assert!(matches!(e, InstructionResult::CreateCollision));
+            assert!(collision);
+            assert!(js.depth == d0);
+            assert!(js.journal.len() == j0);
+            assert!(js.logs.len() == l0);
+            let (c, t) = (js.state.get(&A).unwrap(), js.state.get(&B).unwrap());
+            assert!(limbs_eq(&c.info.balance, &cb0) && c.info.nonce == cn0);
+            assert!(limbs_eq(&t.info.balance, &tb0) && t.info.nonce == tn0);
+            assert!(!t.is_created() && t.is_touched() == touched0);
+        }
+        Ok(_cp) => {
+            assert!(!collision);
+            assert!(js.depth == d0 + 1);
+            assert!(js.journal.len() == j0 + 1);
+            assert!(js.logs.len() == l0);
+            let (c, t) = (js.state.get(&A).unwrap(), js.state.get(&B).unwrap());
+            assert!(limbs_eq(&c.info.balance, &(cb0 - value)) && c.info.nonce == cn0);
+            assert!(limbs_eq(&t.info.balance, &(tb0 + value)) && t.info.nonce == 1);
+            assert!(t.is_created() && t.is_touched());
+            let lvl = &js.journal[j0];
+            assert!(lvl.len() == if touched0 { 2 } else { 3 });
+            assert!(matches!(&lvl[0], JournalEntry::AccountCreated { address } if addr_id(address) == 0xB2));
+            if !touched0 {
+                assert!(matches!(&lvl[1], JournalEntry::AccountTouched { address } if addr_id(address) == 0xB2));
+            }
+            let last = &lvl[lvl.len() - 1];
+            assert!(matches!(last, JournalEntry::BalanceTransfer { from, to, balance }
+                if addr_id(from) == 0xA1 && addr_id(to) == 0xB2 && limbs_eq(balance, &value)));
+        }
+    }
     core::mem::forget(js);
 }
